@@ -27,6 +27,8 @@
 #include <new>
 #include <utility>
 
+#include <dispenso/platform.h>
+
 namespace dispenso {
 
 /**
@@ -416,14 +418,32 @@ class SmallVector {
       ptr[i].~T();
     }
     if (!isInline()) {
-      ::operator delete(storage_.heap_.ptr);
+      freeHeap(storage_.heap_.ptr);
     }
   }
 
   // Grow to heap storage with the specified capacity.
   // Moves existing elements, frees old heap if applicable, sets heap bit.
+  // Plain operator new only guarantees alignof(std::max_align_t); over-aligned element types
+  // need an explicitly aligned allocation.
+  static constexpr bool kOverAligned = alignof(T) > alignof(std::max_align_t);
+
+  static T* allocHeap(size_type cap) {
+    return static_cast<T*>(
+        kOverAligned ? detail::alignedMalloc(cap * sizeof(T), alignof(T))
+                     : ::operator new(cap * sizeof(T)));
+  }
+
+  static void freeHeap(T* ptr) noexcept {
+    if (kOverAligned) {
+      detail::alignedFree(ptr);
+    } else {
+      ::operator delete(ptr);
+    }
+  }
+
   void growToHeap(size_type newCap) {
-    T* newData = static_cast<T*>(::operator new(newCap * sizeof(T)));
+    T* newData = allocHeap(newCap);
     T* oldData = data();
     size_type sz = rawSize();
 
@@ -433,7 +453,7 @@ class SmallVector {
     }
 
     if (!isInline()) {
-      ::operator delete(storage_.heap_.ptr);
+      freeHeap(storage_.heap_.ptr);
     }
 
     storage_.heap_.ptr = newData;
